@@ -412,6 +412,25 @@ def run(ctx, col: Collector):
             filt_join = [c for c in ast.walk(m.node) if isinstance(c, (ast.GeneratorExp, ast.ListComp)) and any(isinstance(x, ast.Call) and isinstance(x.func, ast.Attribute)
                          and x.func.attr == 'render' for x in ast.walk(c.elt)) and any(g.ifs for g in c.generators)]
             col.check(not filt_join, 'C16-compose', f'{rc.name}.render_db:no-filter', 'no element is filtered out at join time', 'the join filters elements', node=rets[0], file=m.file)
+            # ... nor before it: a truth test on the elements themselves (`filter(None, items)`, `if x`) is meant to drop a missing project, but it also drops every
+            # element whose class defines its own truth value (a sticky note without text is falsy)
+            from .presence import falsy_capable, truth_tested, expr_classes
+            fc = falsy_capable(idx)
+            dropped = []
+            for site, e in truth_tested(m.node):
+                if isinstance(site, ast.comprehension) or isinstance(e, ast.Starred):
+                    hit = sorted(idx.classes[c].name for c in expr_classes(idx, m, e) & set(fc))
+                    if hit:
+                        dropped.append((site, e, hit))
+            cons_t = f'{rc.name}.render_db:no-truth-filter'
+            if dropped:
+                site, e, hit = dropped[0]
+                col.bad('C16-compose', cons_t, f'{rc.name}.render_db keeps the elements that are truthy (`{norm(e)[:50]}`): {"/".join(hit)} defines its own truth value '
+                        f'({", ".join(fc[c] for c in fc if idx.classes[c].name in hit)}), so an element of that class that is empty is left out of the database text although '
+                        f'its own text is not empty', node=rets[0], file=m.file)
+            else:
+                col.ok('C16-compose', cons_t, 'no selection by the truth value of the elements (classes with a truth value of their own: '
+                       f'{sorted(idx.classes[c].name for c in fc)})', node=rets[0], file=m.file)
             # collections read
             reads: Dict[str, int] = {}
             for n in walk_no_nested(m.node):
